@@ -1029,8 +1029,10 @@ func runC19(c *vk.Ctx) {
 						sig["msg"] = strings.Fields(descs[h][k])[0]
 						sig["msg_family"] = sig["msg"]
 						switch sig["msg"] {
-						case "lock", "extend", "begin", "receiver":
+						case "lock", "extend", "begin", "receiver", "partial", "unlock":
 							sig["msg_family"] = "lockup"
+						case "stake", "unstake", "withdraw":
+							sig["msg_family"] = "staking"
 						}
 						if isImport && !firstTxSeen && sig["field"] == "gas" && x.GasUsed-y.GasUsed == 36 {
 							// the first transaction after an import: recorded and the comparison goes on
